@@ -44,6 +44,7 @@ Do(R) ==
   \/ R.e = "pop"     /\ Pop(R.n, R.last, R.r)
   \/ R.e = "retain"  /\ Retain(R.n, R.lo, R.hi, R.p, R.r)
   \/ R.e = "extract" /\ Extract(R.n, R.lo, R.hi, R.p, R.cnt, R.rev, R.alt, R.r)
+  \/ R.e = "predpanic" /\ PredicatePanic(R.n)
   \/ R.e = "cur_open" /\ CurOpen(R.n, R.b, R.upper, R.r)
   \/ R.e = "cur"     /\ CurOp(R.op, R.k, R.v, R.r)
   \/ R.e = "cur_close" /\ CurClose(R.r)
